@@ -26,7 +26,51 @@ impl ValidatorParser {
         for attr in attrs {
             if attr.path().is_ident("validate") {
                 found_validator = true;
-                // Parse the tokens inside the validate attribute
+
+                // Walk the attribute's own structure: `length(..)`, `range(..)`, `email`, `url`
+                // count only as validators of that name, and their arguments are read as the
+                // literals they are. Scanning the token text instead mistook words inside a
+                // message for validators, lost negative bounds and messages containing ')',
+                // and sliced multi-byte text at the wrong offset
+                let mut parsed_attrs = validator_attrs.clone();
+                let parsed = attr.parse_nested_meta(|meta| {
+                    if meta.path.is_ident("length") {
+                        let bounds = Self::parse_bounds(&meta)?;
+                        parsed_attrs.length = Some(LengthConstraint {
+                            min: bounds.min_int,
+                            max: bounds.max_int,
+                            message: bounds.message,
+                        });
+                    } else if meta.path.is_ident("range") {
+                        let bounds = Self::parse_bounds(&meta)?;
+                        parsed_attrs.range = Some(RangeConstraint {
+                            min: bounds.min,
+                            max: bounds.max,
+                            message: bounds.message,
+                        });
+                    } else if meta.path.is_ident("email") {
+                        parsed_attrs.email = true;
+                        if let Some(message) = Self::parse_bounds(&meta)?.message {
+                            parsed_attrs.custom_message = Some(message);
+                        }
+                    } else if meta.path.is_ident("url") {
+                        parsed_attrs.url = true;
+                        if let Some(message) = Self::parse_bounds(&meta)?.message {
+                            parsed_attrs.custom_message.get_or_insert(message);
+                        }
+                    } else {
+                        // A validator this generator has no Zod counterpart for
+                        Self::parse_bounds(&meta)?;
+                    }
+                    Ok(())
+                });
+
+                if parsed.is_ok() {
+                    validator_attrs = parsed_attrs;
+                    continue;
+                }
+
+                // Unusual attribute syntax: fall back to scanning the token text
                 if let Ok(tokens) = syn::parse2::<syn::MetaList>(attr.meta.to_token_stream()) {
                     // Convert tokens to string and do basic parsing for now
                     let tokens_str = tokens.tokens.to_string();
@@ -56,6 +100,77 @@ impl ValidatorParser {
             Some(validator_attrs)
         } else {
             None
+        }
+    }
+
+    /// Read the arguments of one validator: `(min = 1, max = 10, message = "...")`, `= value`,
+    /// or nothing at all
+    fn parse_bounds(meta: &syn::meta::ParseNestedMeta) -> syn::Result<ValidatorArguments> {
+        let mut arguments = ValidatorArguments::default();
+
+        if meta.input.peek(syn::Token![=]) {
+            let _: syn::Expr = meta.value()?.parse()?;
+            return Ok(arguments);
+        }
+        if !meta.input.peek(syn::token::Paren) {
+            return Ok(arguments);
+        }
+
+        meta.parse_nested_meta(|inner| {
+            if !inner.input.peek(syn::Token![=]) {
+                if inner.input.peek(syn::token::Paren) {
+                    let content;
+                    syn::parenthesized!(content in inner.input);
+                    let _: proc_macro2::TokenStream = content.parse()?;
+                }
+                return Ok(());
+            }
+            let value: syn::Expr = inner.value()?.parse()?;
+            if inner.path.is_ident("min") {
+                (arguments.min, arguments.min_int) = Self::number_of(&value);
+            } else if inner.path.is_ident("max") {
+                (arguments.max, arguments.max_int) = Self::number_of(&value);
+            } else if inner.path.is_ident("equal") {
+                (arguments.min, arguments.min_int) = Self::number_of(&value);
+                (arguments.max, arguments.max_int) = Self::number_of(&value);
+            } else if inner.path.is_ident("message") {
+                if let syn::Expr::Lit(syn::ExprLit {
+                    lit: syn::Lit::Str(lit),
+                    ..
+                }) = &value
+                {
+                    arguments.message = Some(lit.value());
+                }
+            }
+            Ok(())
+        })?;
+
+        Ok(arguments)
+    }
+
+    /// The value of a numeric literal, possibly negated: as a float, and as an unsigned
+    /// integer when it is one
+    fn number_of(expr: &syn::Expr) -> (Option<f64>, Option<u64>) {
+        match expr {
+            syn::Expr::Lit(syn::ExprLit {
+                lit: syn::Lit::Int(lit),
+                ..
+            }) => (
+                lit.base10_digits().parse::<f64>().ok(),
+                lit.base10_parse::<u64>().ok(),
+            ),
+            syn::Expr::Lit(syn::ExprLit {
+                lit: syn::Lit::Float(lit),
+                ..
+            }) => (lit.base10_parse::<f64>().ok(), None),
+            syn::Expr::Unary(syn::ExprUnary {
+                op: syn::UnOp::Neg(_),
+                expr,
+                ..
+            }) => (Self::number_of(expr).0.map(|value| -value), None),
+            syn::Expr::Paren(paren) => Self::number_of(&paren.expr),
+            syn::Expr::Group(group) => Self::number_of(&group.expr),
+            _ => (None, None),
         }
     }
 
@@ -197,7 +312,7 @@ impl ValidatorParser {
                     if quote_char == '"' || quote_char == '\'' {
                         // Find the closing quote, handling escaped quotes
                         let rest = &after_eq[1..];
-                        let chars = rest.chars().enumerate();
+                        let chars = rest.char_indices();
                         let mut escaped = false;
 
                         for (i, ch) in chars {
@@ -228,6 +343,16 @@ impl ValidatorParser {
         }
         None
     }
+}
+
+/// The arguments one validator was written with
+#[derive(Debug, Default)]
+struct ValidatorArguments {
+    min: Option<f64>,
+    max: Option<f64>,
+    min_int: Option<u64>,
+    max_int: Option<u64>,
+    message: Option<String>,
 }
 
 impl Default for ValidatorParser {
